@@ -20,6 +20,24 @@ from . import srcmodel as S
 TOKEN_HELPERS = {"_advance", "_expect", "_accept", "_peek"}
 
 
+def _copy_env(env):
+    return {k: (set(v) if isinstance(v, set) else v) for k, v in env.items()}
+
+
+def _null_test(t):
+    """(name, branch) when the test decides that a local is None / empty on that branch: `x is None`, `x is not None`, `not x`, `x`."""
+    if isinstance(t, ast.Compare) and len(t.ops) == 1 and isinstance(t.left, ast.Name) and isinstance(t.comparators[0], ast.Constant) and t.comparators[0].value is None:
+        if isinstance(t.ops[0], ast.Is):
+            return t.left.id, True
+        if isinstance(t.ops[0], ast.IsNot):
+            return t.left.id, False
+    if isinstance(t, ast.UnaryOp) and isinstance(t.op, ast.Not) and isinstance(t.operand, ast.Name):
+        return t.operand.id, True
+    if isinstance(t, ast.Name):
+        return t.id, False
+    return None
+
+
 class Site:
     """One call expression of interest with the environment that reaches it."""
 
@@ -69,6 +87,8 @@ class FnWiring:
             return {("const", e.value)}
         if isinstance(e, ast.Name):
             if e.id in env:
+                if not getattr(self, "_in_test", False):
+                    env.setdefault("$pend", set()).difference_update(env[e.id])
                 return set(env[e.id])
             return {("global", e.id)}
         if isinstance(e, ast.Attribute):
@@ -122,9 +142,14 @@ class FnWiring:
 
     def call(self, e, env, guards):
         f = e.func
+        saved = getattr(self, "_in_test", False)
+        self._in_test = False
         args = [frozenset(self.ev(a, env, guards)) for a in e.args]
         kws = {k.arg: frozenset(self.ev(k.value, env, guards)) for k in e.keywords}
-        self.sites.append(Site(e, {k: set(v) for k, v in env.items()}, self.fn, self.ordinals[id(e)], guards))
+        self._in_test = saved
+        if isinstance(f, ast.Attribute) and f.attr == "_reset":
+            env["$pend"] = set()
+        self.sites.append(Site(e, _copy_env(env), self.fn, self.ordinals[id(e)], guards))
         e._args, e._kws = args, kws
         if isinstance(f, ast.Attribute) and isinstance(f.value, ast.Name) and f.value.id == self.selfname:
             m = f.attr
@@ -159,6 +184,7 @@ class FnWiring:
     def assign(self, t, v, env):
         if isinstance(t, ast.Name):
             env[t.id] = set(v)
+            env.setdefault("$pend", set()).update(v)        # must-use: bound, not yet used
         elif isinstance(t, (ast.Tuple, ast.List)):
             for i, tt in enumerate(t.elts):
                 comp = set()
@@ -174,7 +200,10 @@ class FnWiring:
         out = {}
         for e in envs:
             for k, v in e.items():
+                if k.startswith("$"):
+                    continue
                 out.setdefault(k, set()).update(v)
+        out["$pend"] = set().union(*[e.get("$pend", set()) for e in envs])      # must-use: pending on any joining path
         return out
 
     def block(self, body, env, guards):
@@ -218,23 +247,32 @@ class FnWiring:
             return env
         if isinstance(st, ast.Return):
             v = self.ev(st.value, env, guards) if st.value is not None else {("const", None)}
-            self.returns.append((st, v, guards, {k: set(x) for k, x in env.items()}))
+            self.returns.append((st, v, guards, {k: (set(x) if isinstance(x, set) else x) for k, x in env.items()}))
             return None
         if isinstance(st, ast.Raise):
             return None
         if isinstance(st, ast.If):
+            self._in_test = True
             self.ev(st.test, env, guards)
+            self._in_test = False
             g = S.unparse(st.test)
-            a = self.block(st.body, {k: set(v) for k, v in env.items()}, guards + (("if", g, True, st),))
-            b = self.block(st.orelse, {k: set(v) for k, v in env.items()}, guards + (("if", g, False, st),))
+            ea, eb = _copy_env(env), _copy_env(env)
+            nul = _null_test(st.test)
+            if nul and nul[0] in env:
+                # on the branch where the variable is None / empty nothing it stands for can be lost
+                (ea if nul[1] else eb).setdefault("$pend", set()).difference_update(env[nul[0]])
+            a = self.block(st.body, ea, guards + (("if", g, True, st),))
+            b = self.block(st.orelse, eb, guards + (("if", g, False, st),))
             outs = [x for x in (a, b) if x is not None]
             return self.merge(outs) if outs else None
         if isinstance(st, (ast.While, ast.For)):
-            cur = {k: set(v) for k, v in env.items()}
+            cur = _copy_env(env)
             for _ in range(4):
-                e2 = {k: set(v) for k, v in cur.items()}
+                e2 = _copy_env(cur)
                 if isinstance(st, ast.While):
+                    self._in_test = True
                     self.ev(st.test, e2, guards)
+                    self._in_test = False
                 else:
                     it = self.ev(st.iter, e2, guards)
                     self.assign(st.target, {("elem", d) for d in it}, e2)
@@ -254,7 +292,7 @@ class FnWiring:
             return after
         if isinstance(st, (ast.Break, ast.Continue)):
             if getattr(self, "_loop_exits", None):
-                self._loop_exits[-1].append(("break" if isinstance(st, ast.Break) else "continue", {k: set(v) for k, v in env.items()}))
+                self._loop_exits[-1].append(("break" if isinstance(st, ast.Break) else "continue", _copy_env(env)))
             return None
         if isinstance(st, ast.Match):
             self.ev(st.subject, env, guards)
@@ -262,7 +300,7 @@ class FnWiring:
             exhaustive = False
             for case in st.cases:
                 g = S.unparse(case.pattern) + (" if " + S.unparse(case.guard) if case.guard is not None else "")
-                e2 = {k: set(v) for k, v in env.items()}
+                e2 = _copy_env(env)
                 if case.guard is not None:
                     self.ev(case.guard, e2, guards)
                 o = self.block(case.body, e2, guards + (("case", g, True, case),))
@@ -274,7 +312,9 @@ class FnWiring:
                 outs.append(env)
             return self.merge(outs) if outs else None
         if isinstance(st, ast.Assert):
+            self._in_test = True
             self.ev(st.test, env, guards)
+            self._in_test = False
             return env
         if isinstance(st, ast.FunctionDef):
             env[st.name] = {("localfn", st.name)}
